@@ -22,6 +22,10 @@ CHECKS = {
    "exhaustive single (thorough: double) I/O-fault injection at every create/write/sync/seek/read of the workload, crossed with every interleaving (controlled scheduler); plus exhaustive cycle histories x AutoClear x AutoClean for directory residue",
    "Every I/O operation the property names is answered once with a sentinel error in every schedule of each workload (both modes); oracle: a fault that precedes the return of the last call surfaces as a non-nil non-EOF error from some Push/Finalise/Pull, and success throughout implies exactly the pushed values. Residue: all histories of <=2 cycles with counts on both sides of the chunk size, checked on the real directory.",
    "Faults are whole-operation errors (no short writes/crashes); Close/Remove are not faulted; exhaustive for the listed workloads only."),
+ "C11": (E2, "model_checking", "DESIGN.md §2.5, §3 C11",
+   "explicit-state breadth-first search over cycle histories applied to the real sorter (replay-from-fresh), merged at cycle boundaries on a reflective canonical key, run to closure; reference model = sorted multiset compared after every operation",
+   "All histories of any number of cycles whose per-cycle shapes are in the stated alphabet (push counts on both sides of the chunk size, every value word over {1,2}, every pull count class), for chunk 1..3 x AutoClear x concurrent flag x int/struct elements: every history of <=2 (thorough <=3) cycles is run unmerged; beyond that states are merged on the sorter's private state read by reflection and the search closes.",
+   "Protocol order push* finalise pull* clear; merging assumes equal boundary keys imply equal futures (key = fast,pos,len,chunk,pool,writable,files,error; a missing field disables merging); real files on tmpfs."),
 }
 PENDING = {}  # id -> reason, for properties not (yet) claimed
 
